@@ -66,6 +66,16 @@ fn core(prop: &str, tier: u8) -> &'static Vec<SProg> {
             v.extend(enumerate(2, 2, &*pk, &well_formed));
             let lk = alphabet_for("C07");
             v.extend(enumerate(2, 2, &*lk, &well_formed));
+            // two readers that overlap (in different threads) and a third thread with two write-side operations:
+            // a reader that joins another reader is still an access a later writer depends on
+            use SOp::*;
+            for t2 in [vec![TryWrite, RwUnlock, Write, RwUnlock], vec![Write, RwUnlock, TryWrite, RwUnlock], vec![TryWrite, RwUnlock, TryWrite, RwUnlock], vec![Write, RwUnlock, Write, RwUnlock]] {
+                for t1 in [vec![Read, RwUnlock], vec![Read, RwUnlock, TryRead, RwUnlock], vec![TryRead, RwUnlock]] {
+                    for main in [vec![Read, RwUnlock], vec![TryRead, RwUnlock]] {
+                        v.push(sp(vec![main.clone(), t1.clone(), t2.clone()]));
+                    }
+                }
+            }
         }
         "C05" => {
             v.extend(enumerate(2, 3, &*al, &well_formed));
